@@ -101,6 +101,12 @@ func (qfs QUICFrames) build(cryptoData []byte, baseOffset uint64) (payload []byt
 				// calculate length: from offset to the end of cryptoData
 				length = len(cryptoData) - lengthOffset
 			}
+			// A layout that does not fit the CRYPTO data it is handed (e.g. a fixed layout reused for the
+			// short last datagram of a flight) is a configuration error, not a reason to panic or to
+			// pad the ClientHello with zero bytes.
+			if length < 0 || lengthOffset < 0 || lengthOffset+length > len(cryptoData) {
+				return nil, fmt.Errorf("uquic: QUICFrames: CRYPTO frame at offset %d with length %d does not fit the %d bytes of CRYPTO data of this datagram", offset, length, len(cryptoData))
+			}
 			frameBytes = []byte{0x06} // CRYPTO frame type
 			// Wire offset = local offset + baseOffset for correct multi-datagram stream positioning.
 			wireOffset := uint64(offset) + baseOffset
